@@ -53,6 +53,28 @@ def generalize(path: str) -> str:
     return '/'.join(out)
 
 
+def parse_describe(text):
+    """Counts printed by Lexicon.describe()."""
+    out = {}
+    for line in text.split('\n'):
+        mt = re.match(r'\s*(Words|Senses|Synsets|ILIs)\s*:\s*(\d+)(?:\s*\((.*)\))?\s*$', line)
+        if not mt:
+            continue
+        name, total, sub = mt.group(1).lower(), int(mt.group(2)), mt.group(3)
+        if name in ('words', 'synsets'):
+            d = {}
+            for part in (sub or '').split(','):
+                if part.strip():
+                    pos, n = part.rsplit(':', 1)
+                    d[pos.strip()] = int(n)
+            out[name] = d
+            if sum(d.values()) != total:
+                out[name + '_total'] = total
+        else:
+            out[name] = total
+    return out
+
+
 class Sim:
     """One simulated run."""
 
@@ -63,6 +85,7 @@ class Sim:
         self.oracles = set(oracles)
         self.W = World(seed)
         self.m = Model(universe)
+        self.models = {'primary': self.m}       # one model per data directory (node)
         self.budget = budget
         self.step = -1
         self.stats = {'ops': 0, 'faults': {}, 'states': set(), 'probes': {}, 'cells': set()}
@@ -92,6 +115,7 @@ class Sim:
 
     def call(self, fn, *a, **kw):
         """Run one API call under the statement budget; returns (result, exception)."""
+        a = tuple(self.W.spell(x) for x in a)
         try:
             with warnings.catch_warnings():
                 warnings.simplefilter('ignore')
@@ -152,6 +176,7 @@ class Sim:
             raise ValueError(k)
 
     def raw_add(self, path, route):
+        path = self.W.spell(path)
         if route == 'mem':
             # callers may keep a loaded resource and hand the same object in again later
             cache = self.__dict__.setdefault('_mem_resources', {})
@@ -252,7 +277,43 @@ class Sim:
             raise self.violation('add-ili-raises', 'add of a valid ILI file raised %s'
                                  % type(exc).__name__, {'exc': repr(exc), 'op': op})
         self.m.add_ili(f)
+        self.reconcile_ili_repeats(f)
         W.log(step=self.step, outcome='ok')
+
+    def reconcile_ili_repeats(self, f):
+        """Ids listed on several lines of one index file: no property says which line wins,
+        so the model adopts what the store holds provided it is one of the file's lines for
+        that id (reload and commutation oracles still bind the choice)."""
+        lines = {}
+        for r in f['rows']:
+            st = r.get('status', 'active') if 'status' in f['columns'] else 'active'
+            df = r.get('definition', '') if 'definition' in f['columns'] else None
+            lines.setdefault(r['ili'], []).append([st, df])
+        rep = {k: v for k, v in lines.items() if len(v) > 1}
+        if not rep:
+            return
+        self.probe('ili-file-repeats-an-id')
+        d = observe.logical_dump(self.W.dbpath())
+        got = {r[0]: [r[1], r[2]] for r in d['shared']['ilis']}
+        for k, cands in sorted(rep.items()):
+            if got.get(k) not in cands:
+                raise self.violation('ili-table', 'an ILI listed on several lines of the index '
+                                     'file ends with a status/definition that is none of its '
+                                     'lines', {'ili': k, 'observed': got.get(k), 'lines': cands})
+            self.m.ilis[k]['status'], self.m.ilis[k]['definition'] = got[k]
+
+    def op_switch(self, op):
+        """The caller points wn.config.data_directory at another data directory (optionally
+        from a fresh process: no pooled connection of either directory survives)."""
+        if op.get('restart'):
+            self.W.restart()
+        self.models[self.W.cur] = self.m
+        self.W.use(op['node'])
+        if op['node'] not in self.models:
+            self.models[op['node']] = Model(self.u)
+        self.m = self.models[op['node']]
+        self.probe('switch-data-directory')
+        self.W.log(step=self.step, outcome='switched')
 
     def op_remove(self, op):
         W = self.W
@@ -468,8 +529,28 @@ class Sim:
                                          {'scope': fam, 'path': path, 'diff': detail,
                                           'more': [x[0] for x in d[1:6]]},
                                          tags=self.cause_tags(path, fam))
+                self.check_describe(w, fam)
         finally:
             self.W.end_op()
+
+    def check_describe(self, w, fam):
+        """Lexicon.describe(): the counts it prints are those of the lexicon's own content."""
+        for lx in w.lexicons():
+            sp = lx.specifier()
+            want = self.m.describe_counts(sp)
+            if None in want['words'] or None in want['synsets']:
+                continue          # (describe() sorts the parts of speech)
+            text, exc = self.call(lx.describe)
+            if exc is not None:
+                raise self.violation('describe', 'Lexicon.describe() raised %s'
+                                     % type(exc).__name__, {'lexicon': sp, 'exc': repr(exc)})
+            got = parse_describe(text)
+            if got != want:
+                raise self.violation('describe', 'Lexicon.describe() reports other counts than '
+                                     'the lexicon\'s own content',
+                                     {'lexicon': sp, 'scope': fam, 'observed': got,
+                                      'expected': want, 'text': text})
+            self.probe('describe-compared')
 
     def cause_tags(self, path, fam):
         return []
